@@ -41,7 +41,7 @@ def classify_and_model(case):
     try:
         error = cc.classify_memory(connection, s, j)
         if error is not None:
-            cc.raise_classify_error(error)
+            cc.raise_classify_error(error, connection)
         step, labels, stretches = model_classify.read_loaded(connection)
         t = cc.tables(connection)
         depth = dict(connection.execute(
@@ -50,12 +50,19 @@ def classify_and_model(case):
     finally:
         connection.close()
     readings = []
+    seen = []
     for thr in threshold_readings(step, j):
-        models = {
-            label: model_classify.classify_stretch(
-                stretches[label], step, s, j, jump_threshold=thr)
-            for label in labels if stretches.get(label)}
-        readings.append(models)
+        for float_inc in (False, True):
+            models = {
+                label: model_classify.classify_stretch(
+                    stretches[label], step, s, j, jump_threshold=thr,
+                    float_increments=float_inc)
+                for label in labels if stretches.get(label)}
+            key = [(m['storms'], m['rises'], m['flags'], m['interstorms'])
+                   for m in models.values()]
+            if key not in seen:
+                seen.append(key)
+                readings.append(models)
     return step, labels, stretches, t, depth, readings
 
 
@@ -147,7 +154,8 @@ PARTS = [
     Part('records', check,
          strategy=lambda tier: st.one_of(
              gen_records.records(max_steps=30 if tier == 'quick' else 60),
-             contention_records(), chain_records()),
+             contention_records(), chain_records(),
+             gen_records.float_records()),
          budget={'quick': 375, 'thorough': 4000},
          describe='storm / rise rows against maximal runs of the model'),
 ]
